@@ -41,7 +41,21 @@ def closure(ctx):
     G, ws = _graph(ctx, n, edges)
     A = {e: T(w) for e, w in ws.items() if not D.is_zero_weight(w)}
     piv = []
-    K = O.closure(A, range(n), ctx.num, piv)
+    if getattr(D, "matrix", False):
+        # matrix weights: the closure over the non-commutative semiring is the closure of the real graph on 2n nodes
+        # obtained by expanding every node into two (an exact, independent oracle that also covers cycles)
+        real = O.Num(ctx.symbolic)
+        big = {}
+        for (i, j), m4 in A.items():
+            for r in range(2):
+                for c in range(2):
+                    if not O.is_zero(m4[2 * r + c]):
+                        big[(i, r), (j, c)] = m4[2 * r + c]
+        nodes2 = [(i, r) for i in range(n) for r in range(2)]
+        Kb = O.closure(big, nodes2, real, piv)
+        K = {(i, j): tuple(Kb[(i, r), (j, c)] for r in range(2) for c in range(2)) for i in range(n) for j in range(n)}
+    else:
+        K = O.closure(A, range(n), ctx.num, piv)
     tag = P.get("name", f"n{n}")
     checks = P.get("checks", ["scc", "ref", "closure", "solve", "fixpoint", "blocks"])
     ok, K1 = ctx.call("closure_scc_based", G.closure_scc_based, sig="closure_scc_based:exception")
@@ -90,6 +104,21 @@ def closure(ctx):
             rhs = num.add(bt[i], num.sum(num.mul(A.get((i, j), num.zero), T(xr[j])) for j in range(n)))
             if "fixpoint" in checks:
               ctx.eq(f"solve_right[{i}] satisfies x = Ax + b", xr[i], rhs, pivots=piv, sig=f"solve_right_fp:{tag}")
+    # the same object again after solve_right: cached blocks must not have been disturbed
+    if ok and "solve" in checks:
+        b = D.R.chart()
+        for i in range(n):
+            b[i] = bs[i]
+        ok2, xl2 = ctx.call("solve_left after solve_right", G4.solve_left, b, sig="solve_left:exception")
+        if ok2:
+            for j in range(n):
+                ref = num.sum(num.mul(bt[i], K[i, j]) for i in range(n))
+                ctx.eq(f"solve_left[{j}] after solve_right on the same graph object", xl2[j], ref, pivots=piv, sig=f"solve_left-after-right:{tag}")
+        ok3, K3 = ctx.call("closure_scc_based after the solvers", G4.closure_scc_based, sig="closure_scc_based:exception")
+        if ok3 and "scc" in checks:
+            for i in range(n):
+                for j in range(n):
+                    ctx.eq(f"closure_scc_based[{i},{j}] after the solvers on the same graph object", K3[i, j], K[i, j], pivots=piv, sig=f"scc-after-solvers:{tag}")
     # blocks = SCCs, listed in an order compatible with the edges
     present = set(A)
     comps, reach = _bool_sccs(n, present)
@@ -148,6 +177,11 @@ def jobs(tier, seed):
     out.append(dict(case="closure_nc", params=dict(n=3, edges=dag3, name="nc-dag3")))
     out += split_job(dict(case="closure_nc", params=dict(n=4, edges=dag4, name="nc-dag4")), [0, 1])
     out += split_job(dict(case="closure_nc", params=dict(n=4, edges=dag4b, name="nc-dag4-reversed")), [0])
+    # cycles over the matrix semiring (star = (I - M)^{-1} of a 2x2 block)
+    out.append(dict(case="closure_nc", params=dict(n=2, edges=[(0, 1), (1, 0)], name="nc-2cycle", checks=["scc", "ref", "solve", "blocks"]), timeout=1500))
+    out.append(dict(case="closure_nc", params=dict(n=2, edges=[(0, 0), (0, 1)], name="nc-loop", checks=["scc", "ref", "solve", "blocks"]), timeout=1500))
+    if tier != "quick":
+        out.append(dict(case="closure_nc", params=dict(n=3, edges=[(0, 1), (1, 0), (1, 2)], name="nc-2cycle-tail", checks=["scc", "ref", "solve", "blocks"]), timeout=2400))
     out.append(dict(case="closure_nc", params=dict(n=3, edges=dag3, name="nc-canary", canary=True)))
     seeds = [1 + seed % 1000] if tier == "quick" else [0, 1, 1 + seed % 1000]
     return [dict(j, hashseed=s) for j in out for s in (seeds if not j["params"].get("canary") else seeds[:1])]
